@@ -19,6 +19,8 @@ pub struct Standalone {
     pub imports: BTreeMap<String, BTreeSet<String>>,
     /// doc comment (if any) + `export type .. ;`
     pub decl_text: String,
+    /// the standalone text as it was given (what a file holding only this type contains)
+    pub text: String,
 }
 
 pub fn parse_standalone(text: &str, note: &str) -> Result<Standalone, String> {
@@ -50,7 +52,7 @@ pub fn parse_standalone(text: &str, note: &str) -> Result<Standalone, String> {
         .strip_prefix("export type ")
         .ok_or_else(|| "declaration does not start with `export type `".to_string())?;
     let head: String = after.chars().take_while(|c| !c.is_whitespace()).collect();
-    Ok(Standalone { name: d.name.clone(), head, imports, decl_text })
+    Ok(Standalone { name: d.name.clone(), head, imports, decl_text, text: text.to_string() })
 }
 
 pub fn combine(note: &str, parts: &[Standalone]) -> String {
